@@ -15,10 +15,10 @@ MCEnv == [none |-> [k |-> "bool"]]
 VARIABLES st, c
 vars == <<st, c>>
 
-CfgOf(n) == CASE n = "default" -> [protoTime |-> FALSE, protoArrays |-> FALSE]
-              [] n = "pt"      -> [protoTime |-> TRUE,  protoArrays |-> FALSE]
-              [] n = "pa"      -> [protoTime |-> FALSE, protoArrays |-> TRUE]
-              [] n = "both"    -> [protoTime |-> TRUE,  protoArrays |-> TRUE]
+CfgOf(n) == CASE n = "default" -> [protoTime |-> FALSE, protoArrays |-> FALSE, nullProto |-> FALSE]
+              [] n = "pt"      -> [protoTime |-> TRUE, protoArrays |-> FALSE, nullProto |-> FALSE]
+              [] n = "pa"      -> [protoTime |-> FALSE, protoArrays |-> TRUE, nullProto |-> FALSE]
+              [] n = "both"    -> [protoTime |-> TRUE, protoArrays |-> TRUE, nullProto |-> FALSE]
 
 \* ---- kinds ----
 KInt(w, opt) == [k |-> "int", w |-> w, opt |-> opt, of |-> ""]
@@ -176,10 +176,26 @@ Walkable == Done /\ Resolve(T).k = "struct" => Frames(Encode(G, T, V)).ok
 MatcherSound == Done => EncMatches(G, T, V, Encode(G, T, V))
 \* C12 in the model: in the fully proto-compatible mode only wire types 0,1,2,5 occur at the top level of a struct
 \* (nested levels are checked by MCProto)
-ProtoTop == Done /\ c.cfg = "both" /\ c.pos \notin {"slicefield", "mapkey", "mapval", "mapptrval"} /\ Resolve(T).k = "struct"
+ProtoTop == Done /\ c.cfg = "both" /\ c.pos \notin {"slicefield", "mapkey", "mapval", "mapptrval", "L_map"} /\ Resolve(T).k = "struct"
             => ProtoFrames(Encode(G, T, V)).ok
 \* normalisation is idempotent
 NormIdem == Done => Eq(T, Norm(G, T, Norm(G, T, V, TRUE), TRUE), Norm(G, T, V, TRUE))
+
+\* C12 in the model: each option changes only its own encodings
+RECURSIVE HasKind(_, _, _)
+HasKind(T0, P(_), fuel) == LET TT == Resolve(T0) IN
+  P(TT) \/ (fuel > 0 /\ CASE TT.k \in {"ptr", "slice"} -> HasKind(TT.e, P, fuel - 1)
+                           [] TT.k = "map" -> HasKind(TT.key, P, fuel - 1) \/ HasKind(TT.val, P, fuel - 1)
+                           [] TT.k = "struct" -> \E i \in 1..Len(TT.f) : HasKind(TT.f[i].t, P, fuel - 1)
+                           [] OTHER -> FALSE)
+IsTimeT(X) == X.k = "time"
+IsLenSlice(X) == X.k = "slice" /\ WT(Cfg0, X.e) = WTLength
+OptionLocal == Done =>
+  /\ (~HasKind(T, IsTimeT, 6) => Encode([G EXCEPT !.protoTime = ~@], T, V) = Encode(G, T, V))
+  /\ (~HasKind(T, IsLenSlice, 6) => Encode([G EXCEPT !.protoArrays = ~@], T, V) = Encode(G, T, V))
+\* and the default mode reads the repeated form of a slice
+CrossRead == Done /\ G.protoArrays /\ Resolve(T).k = "struct" =>
+  LET d == Decode([G EXCEPT !.protoArrays = FALSE], T, Encode(G, T, V), Zero(T)) IN d.ok /\ Eq(T, d.v, Norm(G, T, V, TRUE))
 
 CaseJson == ToJson([ev |-> "codec", T |-> RawT, v |-> V, cfgname |-> c.cfg, u |-> <<c.pos, ToString(c.n)>>])
 EmitCase == (Done /\ Emit) => PrintT(<<"CASE", CaseJson>>)
